@@ -33,7 +33,8 @@ def convert_claims(claims: Claims, encoder_cls: Type[JSONEncoder] | None = None)
         if isinstance(claim, datetime.datetime):
             claims[k] = calendar.timegm(claim.utctimetuple())
 
-    content = json.dumps(claims, ensure_ascii=False, separators=(",", ":"), cls=encoder_cls)
+    # NaN and Infinity are not JSON (RFC 8259): ``jwt.decode`` refuses such a payload
+    content = json.dumps(claims, ensure_ascii=False, separators=(",", ":"), cls=encoder_cls, allow_nan=False)
     return to_bytes(content)
 
 
